@@ -152,6 +152,8 @@ class World:
             return 0
         if isinstance(item, int):
             return item
+        if isinstance(item, tuple) and len(item) == 2 and isinstance(item[0], int) and isinstance(item[1], bytes):
+            return item[0] if item[1] == b"B" * len(item[1]) else -7  # -7: the payload bytes were damaged
         if isinstance(item, dict) and "k" in item:
             item = item["k"][0]
         if isinstance(item, gateway_base.Channel):
@@ -355,6 +357,24 @@ class World:
                             ret("receive", c, self.tok_of(x))
                         if k == "receive":
                             break
+                elif k == "receive_escape":  # a receive whose EOFError / RemoteError escapes the running code
+                    c = ch(op[1])
+                    call("receive", c)
+                    try:
+                        x = c.receive()
+                    except BaseException as e:
+                        ret("receive", c, 0, self.classify(e))
+                        c = None
+                        raise
+                    ret("receive", c, self.tok_of(x))
+                elif k == "sendbig":  # an item whose frame is larger than any write-splitting threshold: (token, 70 kB of bytes)
+                    c = ch(op[1])
+                    call("send", c, op[2])
+                    try:
+                        c.send((op[2], b"B" * 70000))
+                        ret("send", c, op[2])
+                    except Exception as e:
+                        ret("send", c, op[2], self.classify(e))
                 elif k == "recvchan":  # receive a channel object and bind it
                     c = ch(op[1])
                     call("receive", c)
@@ -391,12 +411,13 @@ class World:
                     cid = c.id
                     want_end = bool(op[2]) if len(op) > 2 else False
                     boom_at = op[3] if len(op) > 3 else None
+                    boom_exc = {"key": KeyError, "lookup": LookupError, "os": OSError, "eof": EOFError}.get(op[4] if len(op) > 4 else "", RuntimeError)
 
-                    def cb(item, cid=cid, side=side, boom_at=boom_at):
+                    def cb(item, cid=cid, side=side, boom_at=boom_at, boom_exc=boom_exc):
                         tok = ENDMARK_TOKEN if item == "ENDMARK" and isinstance(item, str) else self.tok_of(item)
                         self.ev("cb", side, "", cid, tok, flag=(boom_at is not None and tok == boom_at))
                         if boom_at is not None and tok == boom_at:
-                            raise RuntimeError("BOOM in callback")
+                            raise boom_exc("BOOM in callback")
 
                     call("setcallback", c, 0)
                     me = s.me().name
@@ -407,7 +428,7 @@ class World:
                         else:
                             c.setcallback(cb)
                         ret("setcallback", c, 0, "ok", want_end)
-                    except RuntimeError as e:
+                    except (RuntimeError, LookupError, OSError, EOFError) as e:
                         # the callback raised while setcallback() itself was draining queued items:
                         # the exception propagates to the caller of setcallback (accepted, see DESIGN.md)
                         ret("setcallback", c, 0, "BoomPropagated" if "BOOM" in str(e) else self.classify(e))
@@ -416,6 +437,37 @@ class World:
                     finally:
                         self.draining.discard(me)
                     del cb
+                elif k == "mc_queue":
+                    # MultiChannel.make_receive_queue over several member channels (execnet.multi)
+                    from execnet.multi import MultiChannel
+
+                    members = [ch(v) for v in op[1]]
+                    want_end = bool(op[2])
+                    for m in members:
+                        self.ev("call", side, "setcallback", m.id)
+                    me = s.me().name
+                    self.draining.add(me)
+                    try:
+                        mc = MultiChannel(members)
+                        q = mc.make_receive_queue(endmarker="ENDMARK") if want_end else mc.make_receive_queue()
+                    finally:
+                        self.draining.discard(me)
+                    for m in members:
+                        self.ev("ret", side, "setcallback", m.id, 0, "ok", want_end)
+                    ns[op[3]] = (q, len(members))
+                    members = mc = None
+                elif k == "mc_drain":
+                    # read (channel, obj) pairs from the receive queue until every member delivered its endmarker
+                    q, nmem = ns[op[1]]
+                    ends = 0
+                    while ends < nmem:
+                        chan, obj = q.get()
+                        if obj == "ENDMARK" and isinstance(obj, str):
+                            ends += 1
+                            self.ev("cb", side, "mq", chan.id, ENDMARK_TOKEN)
+                        else:
+                            self.ev("cb", side, "mq", chan.id, self.tok_of(obj))
+                        chan = None
                 elif k == "drop":
                     c = None
                     v = op[1]
